@@ -597,6 +597,22 @@ def job_serialisers(col: Collector, seed: int, tier: str, shard: int, nshards: i
         col.extra["serialisers"] = [s["name"] for s in SERIALISERS]
 
 
+def job_after_handshake(col: Collector, seed: int, tier: str, n: int) -> None:
+    """the same serialiser cases in worker processes that earlier completed client handshakes settling on older revisions
+    (what a process did on one connection must not change how it serialises objects for another)"""
+    for w_ in workers():
+        got = w_.request({"op": "history", "handshakes": ["2025-06-18", "2025-03-26", "2024-11-05"]})
+        assert got == ["2025-06-18", "2025-03-26", "2024-11-05"], f"earlier handshakes did not settle as scripted: {got!r}"
+    k = 0
+    for spec in SERIALISERS:
+        for backend in ("pydantic", "fallback"):
+            if spec["mode"] not in ("apply", "apply-list"):
+                continue
+            k += 1
+            hyp_run(col, seed * 1000 + 900 + k, serialiser_cases(spec, backend).map(lambda c: dict(c, after_handshakes=True)), check, n)
+    col.extra["after_handshake"] = "worker processes completed handshakes at 2025-06-18, 2025-03-26 and 2024-11-05 before the cases ran"
+
+
 def same_named_groups() -> List[List[str]]:
     by: Dict[str, List[str]] = {}
     for t in models():
@@ -726,13 +742,13 @@ def job_builders(col: Collector, seed: int, tier: str) -> None:
     col.exhaustive_parts.append(f"all {len(names)} public create_* builders of chuk_mcp.protocol with every parameter populated, both backends")
 
 
-JOBS = {"shared": job_shared, "builders": job_builders, "dump_order": job_dump_order, "models": job_models, "serialisers": job_serialisers, "sequences": job_sequences, "open_enums": job_open_enums}
+JOBS = {"shared": job_shared, "builders": job_builders, "dump_order": job_dump_order, "models": job_models, "serialisers": job_serialisers, "sequences": job_sequences, "open_enums": job_open_enums, "after_handshake": job_after_handshake}
 
 
 def jobs(tier: str):
     if tier == "quick":
-        return [("models", {"shard": s, "nshards": 8, "n": 60}) for s in range(8)] + [("serialisers", {"shard": s, "nshards": 4, "n": 120}) for s in range(4)] + [("sequences", {"shard": s, "n": 10}) for s in range(4)] + [("open_enums", {})] + [("dump_order", {"shard": s, "nshards": 2, "n": 2}) for s in range(2)] + [("shared", {"shard": s, "nshards": 2}) for s in range(2)] + [("builders", {})]
-    return [("models", {"shard": s, "nshards": 8, "n": 1500}) for s in range(8)] + [("serialisers", {"shard": s, "nshards": 4, "n": 2500}) for s in range(4)] + [("sequences", {"shard": s, "n": 300}) for s in range(4)] + [("open_enums", {})] + [("dump_order", {"shard": s, "nshards": 4, "n": 25}) for s in range(4)] + [("shared", {"shard": s, "nshards": 2}) for s in range(2)] + [("builders", {})]
+        return [("models", {"shard": s, "nshards": 8, "n": 60}) for s in range(8)] + [("serialisers", {"shard": s, "nshards": 4, "n": 120}) for s in range(4)] + [("sequences", {"shard": s, "n": 10}) for s in range(4)] + [("open_enums", {})] + [("dump_order", {"shard": s, "nshards": 2, "n": 2}) for s in range(2)] + [("shared", {"shard": s, "nshards": 2}) for s in range(2)] + [("builders", {})] + [("after_handshake", {"n": 40})]
+    return [("models", {"shard": s, "nshards": 8, "n": 1500}) for s in range(8)] + [("serialisers", {"shard": s, "nshards": 4, "n": 2500}) for s in range(4)] + [("sequences", {"shard": s, "n": 300}) for s in range(4)] + [("open_enums", {})] + [("dump_order", {"shard": s, "nshards": 4, "n": 25}) for s in range(4)] + [("shared", {"shard": s, "nshards": 2}) for s in range(2)] + [("builders", {})] + [("after_handshake", {"n": 600})]
 
 
 def shrink(signature: str, seed: int):
